@@ -23,6 +23,7 @@ HARNESS = os.path.join(VERIF, "harness")
 WORK = os.path.join(VERIF, "work")
 TARGET = os.environ.get("CARGO_TARGET_DIR") or os.path.join(HARNESS, "target")
 PV = os.path.join(TARGET, "debug", "pv")
+PV_LS = os.path.join(TARGET, "debug", "pv_ls")   # second harness binary (language-server modules)
 MODEL = os.path.join(LEAN, ".lake", "build", "bin", "parol_model")
 ALLOWED_AXIOMS = {"propext", "Classical.choice", "Quot.sound"}
 BASE_TRUST = [
@@ -336,11 +337,13 @@ def standard_flow(ctx, spec):
       assumptions     list of strings
       allow_axioms    regexes of additional accepted axioms
       bins            harness binaries to build
+      binary          name of the harness binary that serves `<prop> gen|run` (default: pv)
       extra           fn(ctx, state) for property-specific additional steps (optional)
     """
     pid = ctx.pid
     prop = spec["prop"]
-    state = {"diffs": [], "oracle_fail": [], "evaluations": 0}
+    binary = os.path.join(TARGET, "debug", spec["binary"]) if spec.get("binary") else None
+    state = {"diffs": [], "oracle_fail": [], "evaluations": 0, "binary": binary or PV}
     ok, log = build_harness(spec.get("bins", ("pv",)))
     if not ok:
         violation(ctx, f"{pid}_harness_build.json", {
@@ -357,13 +360,13 @@ def standard_flow(ctx, spec):
         proof_broken = True
 
     cases_p, impl_p, model_p = ctx.path("cases.txt"), ctx.path("impl.txt"), ctx.path("model.txt")
-    okg, errg = gen_cases(prop, ctx.seed, ctx.tier, ctx.path("gen.txt"), extra=spec.get("gen_extra", ()))
+    okg, errg = gen_cases(prop, ctx.seed, ctx.tier, ctx.path("gen.txt"), binary=binary, extra=spec.get("gen_extra", ()))
     corpus = corpus_lines(pid)
     gen = read_lines(ctx.path("gen.txt")) if okg else []
     cases = corpus + gen
     with open(cases_p, "w") as f:
         f.write("\n".join(cases) + "\n")
-    oki, erri = run_impl(prop, cases_p, impl_p)
+    oki, erri = run_impl(prop, cases_p, impl_p, binary=binary)
     impl = read_lines(impl_p)
     model = []
     if okd:
